@@ -31,9 +31,9 @@ type partEnv struct{ a partAdapter }
 
 // wlStatus is the kind-independent view of a workload status.
 type wlStatus struct {
-	ObservedGeneration                                   int64
-	Replicas, Ready, Updated, UpdatedReady               int32
-	UpdateRevision, CurrentRevision                      string
+	ObservedGeneration                     int64
+	Replicas, Ready, Updated, UpdatedReady int32
+	UpdateRevision, CurrentRevision        string
 }
 
 type partAdapter interface {
@@ -276,6 +276,9 @@ func (e *partEnv) Release(w *World, rev int) error {
 	e.a.SetTemplate(nw, rev)
 	if w.Cfg.RolloutID {
 		id := fmt.Sprintf("id%d-%d", rev, w.Ghost.Used["user.release2"]+w.Ghost.Used["user.release3"]+w.Ghost.Used["user.rollback"])
+		if w.Cfg.RolloutIDFixed {
+			id = "idfix"
+		}
 		l, an := nw.GetLabels(), nw.GetAnnotations()
 		if l == nil {
 			l = map[string]string{}
@@ -335,7 +338,7 @@ func (e *partEnv) Project(w *World) map[string]interface{} {
 		"ktype": ktype, "kval": kval, "paused": e.a.Paused(o), "inprog": inprog, "ctrl": ctrl,
 		"wtype":     o.GetLabels()["rollouts.kruise.io/workload-type"] != "",
 		"stUpdated": int(st.Updated), "stUpdRdy": int(st.UpdatedReady), "stRepl": int(st.Replicas),
-		"rid": o.GetLabels()["rollouts.kruise.io/rollout-id"],
+		"rid":      o.GetLabels()["rollouts.kruise.io/rollout-id"],
 		"lab":      podLabelSummary(e.pods(w), RevOf(st.UpdateRevision)),
 		"labelled": labelledFor(e.pods(w), workloadRolloutID(o.GetLabels()["rollouts.kruise.io/rollout-id"], RevOf(st.UpdateRevision))),
 	}
@@ -351,21 +354,29 @@ func selectorFor() *metav1.LabelSelector {
 // native apps/v1 StatefulSet
 type stsAdapter struct{}
 
-func (stsAdapter) Kind() string                 { return "StatefulSet" }
-func (stsAdapter) GVK() schema.GroupVersionKind { return apps.SchemeGroupVersion.WithKind("StatefulSet") }
-func (stsAdapter) Resource() string             { return "statefulsets" }
-func (stsAdapter) Unified() bool                { return true }
-func (stsAdapter) New() client.Object           { return &apps.StatefulSet{} }
-func (stsAdapter) HasCurrentRevision() bool     { return true }
+func (stsAdapter) Kind() string { return "StatefulSet" }
+func (stsAdapter) GVK() schema.GroupVersionKind {
+	return apps.SchemeGroupVersion.WithKind("StatefulSet")
+}
+func (stsAdapter) Resource() string         { return "statefulsets" }
+func (stsAdapter) Unified() bool            { return true }
+func (stsAdapter) New() client.Object       { return &apps.StatefulSet{} }
+func (stsAdapter) HasCurrentRevision() bool { return true }
 func (stsAdapter) Fixture(r int) client.Object {
 	return &apps.StatefulSet{ObjectMeta: metav1.ObjectMeta{Namespace: DefaultNS, Name: WorkloadNm},
 		Spec: apps.StatefulSetSpec{Replicas: utilpointer.Int32(int32(r)), Selector: selectorFor(), Template: podTemplate(1), ServiceName: "demo",
 			UpdateStrategy: apps.StatefulSetUpdateStrategy{Type: apps.RollingUpdateStatefulSetStrategyType}}}
 }
-func (stsAdapter) Replicas(o client.Object) int       { return int(*o.(*apps.StatefulSet).Spec.Replicas) }
-func (stsAdapter) SetReplicas(o client.Object, n int) { o.(*apps.StatefulSet).Spec.Replicas = utilpointer.Int32(int32(n)) }
-func (stsAdapter) Image(o client.Object) string       { return o.(*apps.StatefulSet).Spec.Template.Spec.Containers[0].Image }
-func (stsAdapter) SetTemplate(o client.Object, rev int) { o.(*apps.StatefulSet).Spec.Template = podTemplate(rev) }
+func (stsAdapter) Replicas(o client.Object) int { return int(*o.(*apps.StatefulSet).Spec.Replicas) }
+func (stsAdapter) SetReplicas(o client.Object, n int) {
+	o.(*apps.StatefulSet).Spec.Replicas = utilpointer.Int32(int32(n))
+}
+func (stsAdapter) Image(o client.Object) string {
+	return o.(*apps.StatefulSet).Spec.Template.Spec.Containers[0].Image
+}
+func (stsAdapter) SetTemplate(o client.Object, rev int) {
+	o.(*apps.StatefulSet).Spec.Template = podTemplate(rev)
+}
 func (stsAdapter) Status(o client.Object) wlStatus {
 	s := o.(*apps.StatefulSet).Status
 	return wlStatus{ObservedGeneration: s.ObservedGeneration, Replicas: s.Replicas, Ready: s.ReadyReplicas, Updated: s.UpdatedReplicas,
@@ -395,25 +406,31 @@ func (stsAdapter) Paused(o client.Object) bool { return false }
 // Kruise Advanced StatefulSet (apps.kruise.io/v1beta1)
 type astsAdapter struct{}
 
-func (astsAdapter) Kind() string                 { return "AdvStatefulSet" }
-func (astsAdapter) GVK() schema.GroupVersionKind { return kruisev1beta1.SchemeGroupVersion.WithKind("StatefulSet") }
-func (astsAdapter) Resource() string             { return "statefulsets" }
-func (astsAdapter) Unified() bool                { return true }
-func (astsAdapter) New() client.Object           { return &kruisev1beta1.StatefulSet{} }
-func (astsAdapter) HasCurrentRevision() bool     { return true }
+func (astsAdapter) Kind() string { return "AdvStatefulSet" }
+func (astsAdapter) GVK() schema.GroupVersionKind {
+	return kruisev1beta1.SchemeGroupVersion.WithKind("StatefulSet")
+}
+func (astsAdapter) Resource() string         { return "statefulsets" }
+func (astsAdapter) Unified() bool            { return true }
+func (astsAdapter) New() client.Object       { return &kruisev1beta1.StatefulSet{} }
+func (astsAdapter) HasCurrentRevision() bool { return true }
 func (astsAdapter) Fixture(r int) client.Object {
 	return &kruisev1beta1.StatefulSet{ObjectMeta: metav1.ObjectMeta{Namespace: DefaultNS, Name: WorkloadNm},
 		Spec: kruisev1beta1.StatefulSetSpec{Replicas: utilpointer.Int32(int32(r)), Selector: selectorFor(), Template: podTemplate(1), ServiceName: "demo",
 			UpdateStrategy: kruisev1beta1.StatefulSetUpdateStrategy{Type: apps.RollingUpdateStatefulSetStrategyType}}}
 }
-func (astsAdapter) Replicas(o client.Object) int { return int(*o.(*kruisev1beta1.StatefulSet).Spec.Replicas) }
+func (astsAdapter) Replicas(o client.Object) int {
+	return int(*o.(*kruisev1beta1.StatefulSet).Spec.Replicas)
+}
 func (astsAdapter) SetReplicas(o client.Object, n int) {
 	o.(*kruisev1beta1.StatefulSet).Spec.Replicas = utilpointer.Int32(int32(n))
 }
 func (astsAdapter) Image(o client.Object) string {
 	return o.(*kruisev1beta1.StatefulSet).Spec.Template.Spec.Containers[0].Image
 }
-func (astsAdapter) SetTemplate(o client.Object, rev int) { o.(*kruisev1beta1.StatefulSet).Spec.Template = podTemplate(rev) }
+func (astsAdapter) SetTemplate(o client.Object, rev int) {
+	o.(*kruisev1beta1.StatefulSet).Spec.Template = podTemplate(rev)
+}
 func (astsAdapter) Status(o client.Object) wlStatus {
 	s := o.(*kruisev1beta1.StatefulSet).Status
 	return wlStatus{ObservedGeneration: s.ObservedGeneration, Replicas: s.Replicas, Ready: s.ReadyReplicas, Updated: s.UpdatedReplicas, UpdatedReady: s.UpdatedReadyReplicas,
@@ -446,12 +463,14 @@ func (astsAdapter) Paused(o client.Object) bool {
 // Kruise Advanced DaemonSet (apps.kruise.io/v1alpha1); "replicas" = status.desiredNumberScheduled (number of nodes)
 type dsAdapter struct{}
 
-func (dsAdapter) Kind() string                 { return "DaemonSet" }
-func (dsAdapter) GVK() schema.GroupVersionKind { return kruisev1alpha1.SchemeGroupVersion.WithKind("DaemonSet") }
-func (dsAdapter) Resource() string             { return "daemonsets" }
-func (dsAdapter) Unified() bool                { return false }
-func (dsAdapter) New() client.Object           { return &kruisev1alpha1.DaemonSet{} }
-func (dsAdapter) HasCurrentRevision() bool     { return false }
+func (dsAdapter) Kind() string { return "DaemonSet" }
+func (dsAdapter) GVK() schema.GroupVersionKind {
+	return kruisev1alpha1.SchemeGroupVersion.WithKind("DaemonSet")
+}
+func (dsAdapter) Resource() string         { return "daemonsets" }
+func (dsAdapter) Unified() bool            { return false }
+func (dsAdapter) New() client.Object       { return &kruisev1alpha1.DaemonSet{} }
+func (dsAdapter) HasCurrentRevision() bool { return false }
 func (dsAdapter) Fixture(r int) client.Object {
 	ds := &kruisev1alpha1.DaemonSet{ObjectMeta: metav1.ObjectMeta{Namespace: DefaultNS, Name: WorkloadNm, Annotations: map[string]string{"verif/nodes": fmt.Sprint(r)}},
 		Spec: kruisev1alpha1.DaemonSetSpec{Selector: selectorFor(), Template: podTemplate(1),
@@ -470,8 +489,12 @@ func (dsAdapter) SetReplicas(o client.Object, n int) {
 	a["verif/nodes"] = fmt.Sprint(n)
 	o.SetAnnotations(a)
 }
-func (dsAdapter) Image(o client.Object) string { return o.(*kruisev1alpha1.DaemonSet).Spec.Template.Spec.Containers[0].Image }
-func (dsAdapter) SetTemplate(o client.Object, rev int) { o.(*kruisev1alpha1.DaemonSet).Spec.Template = podTemplate(rev) }
+func (dsAdapter) Image(o client.Object) string {
+	return o.(*kruisev1alpha1.DaemonSet).Spec.Template.Spec.Containers[0].Image
+}
+func (dsAdapter) SetTemplate(o client.Object, rev int) {
+	o.(*kruisev1alpha1.DaemonSet).Spec.Template = podTemplate(rev)
+}
 func (dsAdapter) Status(o client.Object) wlStatus {
 	s := o.(*kruisev1alpha1.DaemonSet).Status
 	return wlStatus{ObservedGeneration: s.ObservedGeneration, Replicas: s.DesiredNumberScheduled, Ready: s.NumberReady, Updated: s.UpdatedNumberScheduled,
